@@ -159,6 +159,35 @@ def run(ctx):
         r = [e for e in st.init_raises if e.data.get('exc') == 'ValueError' and any(_is_n_lt_2(g, n) for g in e.guard)]
         ctx.check(bool(r), 'C04.4', f"{name}: construction raises ValueError when n < 2",
                   f"raises in constructor: {[(e.data.get('exc'), [str(g) for g in e.guard]) for e in st.init_raises]}", st.init.loc(), st.init.qualname, 'n<2')
+        # no refusal of an admissible size: a raise whose condition is settled by the sizes alone must not fire for m >= 2 samples and n >= 2
+        from ..truth import tri
+        m_at, n_at = _atom_of(m), _atom_of(n)
+        for e in st.init_raises:
+            if any(_is_n_lt_2(g, n) for g in e.guard):
+                continue
+            hit = None
+            for mv in (2, 3, 4, 9):
+                for nv in (2, 3, 7):
+                    def leaf(q, mv=mv, nv=nv):
+                        if isinstance(q, P) and q.op in ('<', '==') and all(isinstance(a_, Num) and a_.length is None for a_ in q.args):
+                            rs = [sym.subst(a_.r, {m_at: C(mv), n_at: C(nv)}) for a_ in q.args]
+                            if all(r_.is_const() for r_ in rs):
+                                a_, b_ = rs[0].const_value(), rs[1].const_value()
+                                return a_ < b_ if q.op == '<' else a_ == b_
+                        if isinstance(q, P) and q.op.startswith('cmp:') and len(q.args) == 2 and veq(q.args[0], q.args[1]):
+                            return q.op in ('cmp:Eq', 'cmp:LtE', 'cmp:GtE')     # the same value on both sides
+                        # an admissible series is one-dimensional, and a whole-array validation `all(<condition>)` holds / `any(<defect>)` does not
+                        if isinstance(q, P) and q.op == '==' and any(isinstance(t, Term) and t.head == 'attr' and veq(t.args[1], Const('ndim')) for t in walk_vals(q)):
+                            return True
+                        if isinstance(q, P) and q.op == 'truthy' and isinstance(q.args[0], Term) and q.args[0].head in ('lib:numpy.all', 'lib:numpy.any',
+                                                                                                                     'method:all', 'method:any'):
+                            return q.args[0].head.endswith('all')
+                        return None
+                    if all(tri(g, leaf) is True for g in e.guard):
+                        hit = hit or (mv, nv)
+            ctx.check(hit is None, 'C04.4', f"{name}: construction does not refuse an admissible size (m >= 2 samples, n >= 2)",
+                      f"{e.data.get('exc')} at {e.loc()} fires for m = {hit[0] if hit else '?'} samples, n = {hit[1] if hit else '?'}: "
+                      f"{[str(g)[:100] for g in e.guard]}", e.loc(), st.init.qualname, f"admissible:{e.loc().split(':')[-1]}")
         ctx.sample({'rule': 'C04.1/2', 'strategy': name, 'kinds': [kind_of(v) for v in res.items],
                     'extents': [sym.show(resolve_len(as_array(v).length, m)) if as_array(v) is not None else None for v in res.items]})
     check_function_rfa(ctx)
@@ -170,6 +199,11 @@ def run(ctx):
     ctx.trust('helper length contracts: len(oversample_*(a, k)) = (len(a)-1)*k+1; extend_*(a, n, both) adds n per side (decided under C17)',
               'numpy.linspace(a, b, k)[0] == a exactly (bit-for-bit alignment of every n-th abscissa is this library guarantee)')
     ctx.notes.append('NOT DECIDED: finiteness of values; strict monotonicity of the abscissae (numeric consequences of the precondition).')
+
+
+def _atom_of(r: Rat) -> int:
+    (mm, c), = r.n.t.items()
+    return mm[0][0]
 
 
 def _is_n_lt_2(g, n: Rat) -> bool:
